@@ -322,5 +322,7 @@ def obligations(tier):
         for kind, extra in (("uniform", {"step": 2}), ("uniform", {"step": 3}), ("equal", {"size": 1}), ("equal", {"size": 2}), ("unequal", {"sizes": [1, 1]})):
             sk = dict(tree=tree, kind=kind, S=S)
             sk.update(extra)
-            obs.append(Ob("deep/%s/%s%s" % (str(tree).replace(" ", ""), kind, "".join(str(v) for v in extra.values()).replace(" ", "")), "deep", sk, ps, pre))
+            ob = Ob("deep/%s/%s%s" % (str(tree).replace(" ", ""), kind, "".join(str(v) for v in extra.values()).replace(" ", "")), "deep", sk, ps, pre)
+            ob.tags["alldefault_sub"] = alldefault_sub_expr(tree, ps)
+            obs.append(ob)
     return obs
